@@ -357,7 +357,14 @@ func runC16(c *Check, w *World) {
 	names := map[string]int64{}
 	namesOK := false
 	sf := w.Func(OtpPath, "Algorithm.String")
-	if e, info := w.GlobalInit(OtpPath, "algoStrMap"); e != nil && sf != nil {
+	// the name table is whichever package-level map String() looks its receiver up in
+	nameTab := ""
+	if sf != nil {
+		if r := tb.Results(sf, nil, nil, 0); len(r) == 1 && r[0].Op == "lookup" && len(r[0].Args) == 2 && r[0].Args[0].Op == "gval" && r[0].Args[1].String() == fmt.Sprintf("param(%s#0)", FuncName(sf)) {
+			nameTab = strings.TrimPrefix(r[0].Args[0].Sym, "otp.")
+		}
+	}
+	if e, info := w.GlobalInit(OtpPath, nameTab); nameTab != "" && e != nil && sf != nil {
 		lit := EvalLit(e, info)
 		if lit != nil && lit.Kind == "map" {
 			for i, k := range lit.Keys {
@@ -369,7 +376,7 @@ func runC16(c *Check, w *World) {
 			}
 		}
 		r := tb.Results(sf, nil, nil, 0)
-		want := fmt.Sprintf("lookup(gval(otp.algoStrMap); param(%s#0))", FuncName(sf))
+		want := fmt.Sprintf("lookup(gval(otp.%s); param(%s#0))", nameTab, FuncName(sf))
 		namesOK = len(r) == 1 && r[0].String() == want
 		c.Decide(namesOK, "R16.3", FuncName(sf), "algorithm-name-lookup", "Algorithm.String() is the lookup in the name table", "Algorithm.String() returns "+clip(fmt.Sprint(r), 160)+", not the name table entry of its receiver", w.Pos(sf.Pos()))
 	} else if sf != nil {
